@@ -390,8 +390,8 @@ func (e *Exec) oblige(st *State, kind, tag string, goal Term, desc string, p tok
 	name := fmt.Sprintf("%s/%s#%d", e.fn.Key, kind, n)
 	e.obligeNamed(st, name, kind, tag, goal, desc, p)
 	switch kind {
-	case "idx", "slice", "nil", "div", "make":
-		if os.Getenv("RVC_NOASSUME") != "" {
+	case "idx", "nil", "div", "make": // not "slice": measured to derail otherwise quick proofs (array iremoveRange, iaddRange)
+		if na := os.Getenv("RVC_NOASSUME"); na == "1" || strings.Contains(","+na+",", ","+kind+",") {
 			break
 		}
 		// execution continues only when the check passed (otherwise the program panics): one defect, one report
